@@ -449,7 +449,7 @@ class Expander:
         self.tmpl = tmpl_text
         self.out = []  # list of (line_text, origin)
         self.records = {"takes": [], "rewrites": [], "abstractions": [], "sig_rewrites": [], "dropped_attrs": 0,
-                        "exec_consts": [], "files": set()}
+                        "exec_consts": [], "files": set(), "slices": []}
 
     # -- output helpers ------------------------------------------------------
     def emit_chunks(self, chunks):
@@ -486,6 +486,9 @@ class Expander:
                 sub.expand()
                 self.out.extend(sub.out)
                 i += 1
+            elif s.startswith("//@slice "):
+                self.do_slice(i + 1, s)
+                i += 1
             elif s.startswith("//@take-all "):
                 self.do_take_all(i + 1, s)
                 i += 1
@@ -505,6 +508,25 @@ class Expander:
                 self.out.append((ln, ("tmpl", self.unit, i + 1)))
                 i += 1
         return self
+
+    def do_slice(self, lineno, head):
+        # //@slice <file> <ImplType> <board.path> <StructName> <fn> [<fn> ...]
+        import skeleton
+        parts = head.split()
+        if len(parts) < 6:
+            raise ExtractError(f"{self.unit}:{lineno}: malformed slice directive")
+        relpath, impl_type, board_path, struct_name, names = parts[1], parts[2], parts[3], parts[4], parts[5:]
+        sl = skeleton.Slicer(relpath, impl_type, names, board_path)
+        lines = skeleton.render(sl, names, struct_name)
+        self.records["files"].add(relpath)
+        for text, o in lines:
+            self.out.append((text, ("repo", relpath, o) if o else ("tmpl", self.unit, lineno)))
+        notes = {k: (sorted(v) if isinstance(v, set) else v) for k, v in sl.notes.items()}
+        self.records.setdefault("slices", []).append({"file": relpath, "impl": impl_type, "board": board_path, "functions": notes["functions"],
+                                                      "dropped_self_methods_checked_clean": notes["dropped_calls_checked"],
+                                                      "readonly_board_calls": notes["readonly_board_calls"],
+                                                      "havoc_bindings": notes["havoc_bindings"]})
+        self.records["abstractions"].append(f"{relpath}: {impl_type}::{{{', '.join(names)}}} verified as a mechanical control-flow/board-mutation slice (conditions nondeterministic, move variables assumed to be generated moves of the current position)")
 
     def do_take_all(self, lineno, head):
         parts = head.split(None, 3)
